@@ -17,24 +17,24 @@ import (
 
 // Program is the loaded code plus contracts.
 type Program struct {
-	Fset     *token.FileSet
-	Pkgs     []*packages.Package
-	SSA      *ssa.Program
-	SSAPkgs  []*ssa.Package
-	Specs    map[string]*FuncSpec
-	Contr    *Contracts
-	Ghosts   map[string]*GhostGlobal
-	strLits  map[string]uint64
-	typeIDs  map[string]uint64
-	typeByID map[uint64]types.Type
-	funcs    map[string]*ssa.Function
-	allPkgs  map[string]*types.Package
-	LoadS    float64
-	Files    []string
-	RepoDir  string
-	mapTypes map[string]*types.Map
+	Fset             *token.FileSet
+	Pkgs             []*packages.Package
+	SSA              *ssa.Program
+	SSAPkgs          []*ssa.Package
+	Specs            map[string]*FuncSpec
+	Contr            *Contracts
+	Ghosts           map[string]*GhostGlobal
+	strLits          map[string]uint64
+	typeIDs          map[string]uint64
+	typeByID         map[uint64]types.Type
+	funcs            map[string]*ssa.Function
+	allPkgs          map[string]*types.Package
+	LoadS            float64
+	Files            []string
+	RepoDir          string
+	mapTypes         map[string]*types.Map
 	InlinedSomewhere map[string]bool
-	Inv map[string][]*TypeInv // heap name -> type invariants on the values stored there
+	Inv              map[string][]*TypeInv // heap name -> type invariants on the values stored there
 }
 
 // Load loads the given package patterns from dir with the verif tag, builds SSA and parses contracts.
